@@ -142,8 +142,20 @@ func NewExec(env *Env) *Exec {
 	var a virtual.Attributes
 	env.Root.VirtualGetAttributes(x.ctx, MaskBasic, &a)
 	x.M.Root.Ino = a.GetInodeNumber()
+	// A second hierarchy sharing all collaborators: directories cannot move
+	// between the two (EXDEV), leaves can.
+	f := x.M.NewForeignRoot()
+	f.RealDir, f.Bound = env.NewRoot(), true
+	var fa virtual.Attributes
+	f.RealDir.VirtualGetAttributes(x.ctx, MaskBasic, &fa)
+	f.Ino = fa.GetInodeNumber()
 	return x
 }
+
+// foreignLeaf is a Leaf that is not a LinkableLeaf; foreignDirectory is a
+// Directory of another implementation.
+type foreignLeaf struct{ virtual.Leaf }
+type foreignDirectory struct{ virtual.Directory }
 
 func (x *Exec) bad(rule, detail string) {
 	x.Mismatches++
@@ -476,6 +488,27 @@ func (x *Exec) do(op Op) (want, got, note string) {
 			x.checkAttrs(l, &a)
 			x.changeInfo(r, ci)
 		}
+	case "VirtualLinkForeign":
+		// A leaf that cannot be embedded: refused before anything is
+		// looked at or fetched.
+		d := x.node(op.D)
+		var a virtual.Attributes
+		got = x.call("VirtualLink", func() string {
+			_, s := d.RealDir.VirtualLink(ctx, comp(op.N), foreignLeaf{}, MaskBasic, &a)
+			return StatusName(s)
+		})
+		want = EXDEV
+		x.M.sit("link-of-foreign-leaf")
+		x.status(want, got)
+	case "VirtualRenameForeign":
+		d := x.node(op.D)
+		got = x.call("VirtualRename", func() string {
+			_, _, s := d.RealDir.VirtualRename(ctx, comp(op.N), foreignDirectory{}, comp(op.N2))
+			return StatusName(s)
+		})
+		want = EXDEV
+		x.M.sit("rename-into-foreign-directory-implementation")
+		x.status(want, got)
 	case "VirtualLookup":
 		d := x.node(op.D)
 		mask := virtual.AttributesMask(MaskBasic)
@@ -705,6 +738,11 @@ func (x *Exec) do(op Op) (want, got, note string) {
 		case 2:
 			in.SetOwnerUserID(1)
 			want = EPERM
+		case 3:
+			in.SetOwnerGroupID(1)
+			want = EPERM
+		case 4:
+			in.SetPermissions(virtual.PermissionsRead)
 		}
 		var a virtual.Attributes
 		got = x.call("VirtualSetAttributes(dir)", func() string {
@@ -982,7 +1020,13 @@ func (x *Exec) leafOp(op Op) (want, got string) {
 		}
 	case "LeafSetAttributes":
 		in := (&virtual.Attributes{}).SetSizeBytes(uint64(len(op.K)))
-		if op.Trunc {
+		chown := op.Salt%5 == 4
+		switch {
+		case chown && op.Salt%2 == 0:
+			in = (&virtual.Attributes{}).SetOwnerUserID(7)
+		case chown:
+			in = (&virtual.Attributes{}).SetOwnerGroupID(7)
+		case op.Trunc:
 			in = (&virtual.Attributes{}).SetPermissions(virtual.PermissionsRead | virtual.PermissionsExecute)
 		}
 		var a virtual.Attributes
@@ -992,6 +1036,10 @@ func (x *Exec) leafOp(op Op) (want, got string) {
 			})
 		})
 		switch {
+		case chown:
+			want = EPERM
+		case isFile && !live:
+			want = ESTALE
 		case !isFile && !op.Trunc:
 			want = EINVAL
 		case isFile && !op.Trunc && op.FailIO:
@@ -1059,8 +1107,8 @@ func (x *Exec) leafOp(op Op) (want, got string) {
 			return OK
 		})
 	case "LeafUpload":
-		p := &virtual.ApplyUploadFile{Context: ctx, ContentAddressableStorage: discardingCAS{}, DigestFunction: x.digestFn, WritableFileUploadDelay: closedChan}
-		failIO(func() {
+		upload := func() {
+			p := &virtual.ApplyUploadFile{Context: ctx, ContentAddressableStorage: discardingCAS{}, DigestFunction: x.digestFn, WritableFileUploadDelay: closedChan}
 			got = x.call("VirtualApply(ApplyUploadFile)", func() string {
 				if !leaf.VirtualApply(p) {
 					return "unhandled"
@@ -1070,8 +1118,11 @@ func (x *Exec) leafOp(op Op) (want, got string) {
 				}
 				return OK
 			})
-		})
-		if isFile {
+		}
+		stat := func() {
+			if !isFile {
+				return
+			}
 			p2 := &virtual.ApplyGetBazelOutputServiceStat{DigestFunction: &x.digestFn}
 			x.call("VirtualApply(ApplyGetBazelOutputServiceStat)", func() string {
 				leaf.VirtualApply(p2)
@@ -1080,6 +1131,15 @@ func (x *Exec) leafOp(op Op) (want, got string) {
 				}
 				return OK
 			})
+		}
+		// The injected I/O fault hits whichever of the two has to hash
+		// the file (the digest is cached afterwards).
+		if op.Salt%2 == 0 {
+			failIO(upload)
+			stat()
+		} else {
+			failIO(stat)
+			upload()
 		}
 	case "LeafOpenReadFrozen":
 		p := &virtual.ApplyOpenReadFrozen{WritableFileDelay: closedChan}
@@ -1135,7 +1195,9 @@ func (x *Exec) reachableDirs() []*Node {
 			}
 		}
 	}
-	walk(x.M.Root)
+	for _, root := range x.M.Roots {
+		walk(root)
+	}
 	return out
 }
 
